@@ -1114,6 +1114,26 @@ class Interp:
             if r is not None:
                 return r
         args = [self.eval(unit, a, env, this) for a in n.get("args", [])]
+        if self.cfg.iter_positions and qn == "std::accumulate" and len(args) in (3, 4):
+            # summary (trusted): left fold over [first, last) -- the same `more(range, i)` atoms a range-for over that range decides
+            rng = None
+            f0, l0 = args[0], args[1]
+            if isinstance(f0, tuple) and f0 and f0[0] == "ev" and isinstance(l0, tuple) and l0 and l0[0] == "ev":
+                e0, e1 = self.path.events[f0[1] - 1], self.path.events[l0[1] - 1]
+                if e0[0].split("<")[0].split("::")[-1] in ("begin", "cbegin") and e1[0].split("<")[0].split("::")[-1] in ("end", "cend") \
+                        and len(e0[1]) == 1 and e0[1] == e1[1]:
+                    rng = e0[1][0]
+            if rng is not None:
+                acc = args[2]
+                i = 0
+                while self.decide(("more", rng, i)):
+                    if i >= self.cfg.loop_bound:
+                        self.event("loop-bound", [], unit.loc(n.get("loc")))
+                        raise _Truncated()
+                    e = ("elem", rng, i)
+                    acc = self.apply(args[3], [acc, e], unit, unit.loc(n.get("loc")), None) if len(args) == 4 else self.arith("+", acc, e)
+                    i += 1
+                return acc
         if self.cfg.iter_positions and qn in ("std::next", "std::prev") and args:
             k = args[1] if len(args) > 1 else ("k", "1")
             return self.arith("+" if qn == "std::next" else "-", args[0], k)
